@@ -29,6 +29,10 @@ CHECKS = {
          "Translation validation over all reply contents: the 14 StateMessageParser getters and the login session denote extraction terms equal to spec/reply_layout.json; each response field is assigned the getter of its role; independently of the tables, every field shared with the broadcast parser is read the same way a constant 58/59 bytes apart. Library decoders and float formatting are trusted.", "§4 C08"),
  "C09": ("proof", "exception-escape analysis on the abstract interpreter's guarded raise paths (library may-raise table + try/except filtering along inlined calls); guard/typestate check of login success before later writes",
          "Proof over arbitrary reply bytes (the replies are unconstrained symbols): every raising path of the three state queries ends in RuntimeError, every normal return is the response parsed from the last reply, 'successful' is exactly non-None and non-empty, and with an empty login reply the six guarded operations raise RuntimeError having written only the login frame. Exceptions of the asyncio streams themselves are outside the property.", "§4 C09"),
+ "C10": ("translation_validation", "abstract interpretation of the list parser with symbolic records (loop unrolled 0/1/2), reference record layout, writer/reader offset and encoder-pair agreement",
+         "Translation validation: records are exactly the 16-byte chunks of reply bytes 45..len-4 (empty reply => empty set, no raise); every field of the k-th schedule denotes the reference extraction term of record k (id, recurrence, days via the C12 decoder, local HH:MM of LE32 start/end, duration and display wiring); identity is the slot id; the record create_schedule emits places days/start/end at the reader's offsets and widths with the inverse encoder (LE32, mktime vs localtime, '%H:%M', '00' for non-recurring). The zone/DST behaviour of mktime/localtime is not decided.", "§4 C10"),
+ "C11": ("other", "normal forms of the clock encoder/decoder by abstract interpretation; clock-domain (LOCAL/UTC) tagging of library calls; format-directive agreement; whole-input validation rule",
+         "Structural necessary conditions only: encoder = hex(LE32(int(mktime(strptime(today-local ++ HH:MM, same date directives ++ ' %H:%M'))))), decoder = strftime('%H:%M', localtime(LE32)), same width/byte order/format, inverse pair in the LOCAL domain with no UTC-domain API, malformed strings (incl. trailing components) raise. That localtime(mktime(t)) == t in every zone and on DST days is libc/tzdata behaviour and is NOT decided.", "§4 C11"),
 }
 CHECKS.update(_MORE) if False else None
 NOT_YET = {}
